@@ -10,7 +10,7 @@ import random
 import traceback
 
 from harness import gen
-from harness.common import Result, Violation, compare, impl, kind_of, quiet, run_driver, tempdir
+from harness.common import Result, Violation, compare, impl, kind_of, quiet, run_driver, tempdir, worker_copy
 from harness.enum_ref import enumerate_space, value_list
 
 
@@ -218,7 +218,7 @@ def scenario(sseed, mode, do_reload=True):
                 if compare_model:
                     lines.append(dict(suite="grid", op="end", id=int(t.trial_id), status=t.status))
                 try:
-                    quiet(o.end_trial, t)
+                    quiet(o.end_trial, worker_copy(R, t))
                     if compare_model:
                         expect.append("ok | " + state_str(o))
                 except RuntimeError as e:
